@@ -10,6 +10,8 @@
  */
 #include "coap3/coap_libcoap_build.h"
 #include "hcommon.h"
+#include <sanitizer/asan_interface.h>
+#include <malloc.h>
 
 static void null_log(coap_log_t level, const char *message) { (void)level; (void)message; }
 
@@ -51,7 +53,7 @@ static void dump_pdu(const coap_pdu_t *pdu) {
 /* the gate as coap_handle_dgram() / coap_read_session() apply it, without a session */
 static void gate(coap_proto_t proto, const uint8_t *data, size_t len) {
   coap_pdu_t *pdu;
-  int ok = 0;
+  int ok = 0, copied = 0;
   if (proto == COAP_PROTO_UDP) {
     if (len < 4) { printf("drop"); return; }
     if ((data[0] >> 6) != COAP_DEFAULT_VERSION) { printf("drop"); return; }
@@ -72,11 +74,24 @@ static void gate(coap_proto_t proto, const uint8_t *data, size_t len) {
           pdu->used_size = size;
           memcpy(pdu->token - hdr_size, data, len);
           ok = coap_pdu_parse_header(pdu, proto) && (size == 0 || coap_pdu_parse_opt(pdu));
+          copied = 1;
         }
       }
     }
   } else {
     ok = coap_pdu_parse(proto, data, len, pdu);
+    size_t hs = len ? coap_pdu_parse_header_size(proto, data) : 0;
+    copied = hs && hs <= len && hs <= pdu->max_hdr_size;
+  }
+  if (copied) {
+    /* A message shorter than 256 bytes sits in a 256-byte buffer (coap_pdu_init) whose unused rest would hide a read behind
+     * the message: make that rest inaccessible for ASan and walk the message again (same functions, same verdict expected);
+     * the debug dump and the accessor dump below then run on the guarded buffer as well. */
+    size_t real = malloc_usable_size(pdu->token - pdu->max_hdr_size);
+    if (real > (size_t)pdu->max_hdr_size + pdu->used_size)
+      ASAN_POISON_MEMORY_REGION(pdu->token + pdu->used_size, real - pdu->max_hdr_size - pdu->used_size);
+    int again = coap_pdu_parse_header(pdu, proto) && (pdu->used_size == 0 && proto == COAP_PROTO_TCP ? 1 : coap_pdu_parse_opt(pdu));
+    if (again != ok) { printf("unstable first=%d again=%d ", ok, again); }
   }
   if (ok) {
     coap_show_pdu(COAP_LOG_DEBUG, pdu);
